@@ -13,7 +13,7 @@ import (
 func init() {
 	register(Property{ID: "C37", Level: "other", Run: runC37,
 		Technique: "static analysis: enumeration of the write sequences of the structured branch of destinationStdout.log / destinationFile.log on the SSA CFG, static evaluation of the constant skeleton as JSON, sanitizer classification of the message value, sibling agreement",
-		Text:      "Decides for both destinations and every path through the structured branch: the constant pieces written around the three values form, with placeholders, one JSON object with timestamp/level/message members followed by exactly one '\\n' written last; the timestamp is t.Format(time.RFC3339Nano) of the record's time; the level is written by writeLevel without colour, whose colourless outputs are four distinct JSON-safe constants; the message is fmt.Sprintf(format, args...) passed through a JSON string encoder (encoding/json.Marshal) — strconv.Quote and %q are Go syntax, not JSON; the buffer is reset before and written to the sink exactly once after; both destinations agree; every destination.log call (Logger.Log) hands on the record's own (format, args) parameters unchanged on every path - or a verbatim %s of fmt.Sprintf(format, args...) - and the record's level, so the text is formatted exactly once (an already formatted text passed as the format is formatted twice: '%' from arguments is re-interpreted); Logger.Initialize passes Logger.Structured to both constructors. Not decided: the syslog destination (it has no structured mode), time.Format / encoding/json internals.",
+		Text:      "Decides for both destinations and every path through the structured branch: the constant pieces written around the three values form, with placeholders, one JSON object with timestamp/level/message members followed by exactly one '\\n' written last; the timestamp is t.Format(time.RFC3339Nano) of the record's time; the level is written by writeLevel without colour, whose colourless outputs are four distinct JSON-safe constants; the message is fmt.Sprintf(format, args...) passed through a JSON string encoder (encoding/json.Marshal) — strconv.Quote and %q are Go syntax, not JSON; the buffer is reset before and written to the sink exactly once after; both destinations agree; every destination.log call (Logger.Log) hands on the record's own (format, args) parameters unchanged on every path - or a verbatim %s of fmt.Sprintf(format, args...) - and the record's level, so the text is formatted exactly once (an already formatted text passed as the format is formatted twice: '%' from arguments is re-interpreted); Logger.Initialize passes Logger.Structured to both constructors. Not decided: the syslog destination (it has no structured mode), time.Format / encoding/json internals. Calls of new helpers in the structured arm are unfolded per call site (every acyclic path of the helper, parameters bound to the arguments), so the record is the ordered list of writes that reach the buffer wherever they are spelled; a helper that cannot be unfolded (loop, defer, panic exit) and is handed the buffer counts as an unclassified write.",
 		Note:      "trusted: go/types+go/ssa; time.Time.Format(RFC3339Nano) yields a JSON-safe string; encoding/json.Marshal of a string yields a JSON string with invalid UTF-8 replaced by U+FFFD"})
 	addMutants(
 		Mutant{"C37", "stdout-level-quote-dropped", "internal/logger/destination_stdout.go",
@@ -49,90 +49,90 @@ type c37ev struct {
 	kind string // const, time, level, msgjson, msgquote, other
 	s    string
 	call *ssa.Call
-	msg  ssa.Value
+	// message events: what is encoded (described for the log method) and whether
+	// it is fmt.Sprintf(format, args...) of the log method's own parameters
+	msgDesc string
+	fmtOK   bool
 }
 
-func (c *Ctx) c37Events(path []ssa.Instruction) []c37ev {
-	var out []c37ev
+// c37Event classifies one instruction as a write into the destination's
+// buffer. Operands are resolved through new helpers (c37Res) and compared by
+// their description relative to the log method ($0 = d, $1 = t, $2 = level,
+// $3 = format, $4 = args), so the instruction may sit in log itself or in a
+// helper that is currently bound to its call (prop_gen_c37.go).
+func (c *Ctx) c37Event(i ssa.Instruction) (c37ev, bool) {
 	isBuf := func(v ssa.Value) bool { return desc(v) == "$0.buf" }
-	for _, i := range path {
-		cc, ok := i.(*ssa.Call)
-		if !ok {
-			continue
+	cc, ok := i.(*ssa.Call)
+	if !ok {
+		return c37ev{}, false
+	}
+	touches, dest := false, false
+	for _, a := range cc.Call.Args {
+		if isBuf(a) || isBuf(deref(a)) {
+			touches = true
 		}
-		touches := false
-		for _, a := range cc.Call.Args {
-			if isBuf(a) || isBuf(deref(a)) {
-				touches = true
-			}
-		}
-		if !touches {
-			continue
-		}
-		n := calleeName(&cc.Call)
-		args := cc.Call.Args
-		switch n {
-		case "(*bytes.Buffer).WriteString", "(*bytes.Buffer).Write":
-			x := args[1]
-			if s, ok := constString(x); ok {
-				out = append(out, c37ev{kind: "const", s: s, call: cc})
-				continue
-			}
-			// []byte("const") for Write
-			if cv, ok := x.(*ssa.Convert); ok {
-				if s, ok := constString(cv.X); ok {
-					out = append(out, c37ev{kind: "const", s: s, call: cc})
-					continue
-				}
-			}
-			if tc := asCall(x); tc != nil {
-				switch calleeName(&tc.Call) {
-				case "(time.Time).Format":
-					lay, _ := constString(tc.Call.Args[1])
-					ev := c37ev{kind: "time", s: lay, call: tc}
-					if !isParam(tc.Call.Args[0], 1) {
-						ev.s = "!" + lay
-					}
-					out = append(out, ev)
-					continue
-				case "strconv.Quote", "strconv.QuoteToASCII", "strconv.QuoteToGraphic":
-					out = append(out, c37ev{kind: "msgquote", s: calleeName(&tc.Call), call: cc, msg: tc.Call.Args[0]})
-					continue
-				}
-			}
-			// json.Marshal(msg)#0, possibly converted to string
-			if ex, ok := deref(x).(*ssa.Extract); ok && ex.Index == 0 {
-				if mc, ok := ex.Tuple.(*ssa.Call); ok && isCallTo(mc, "encoding/json.Marshal") {
-					out = append(out, c37ev{kind: "msgjson", call: cc, msg: deref(mc.Call.Args[0])})
-					continue
-				}
-			}
-			out = append(out, c37ev{kind: "other", s: desc(x), call: cc})
-		case "(*bytes.Buffer).WriteByte":
-			if b, ok := constInt(args[1]); ok {
-				out = append(out, c37ev{kind: "const", s: string(rune(b)), call: cc})
-			} else {
-				out = append(out, c37ev{kind: "other", s: desc(args[1]), call: cc})
-			}
-		case "(*bytes.Buffer).WriteRune":
-			if b, ok := constInt(args[1]); ok {
-				out = append(out, c37ev{kind: "const", s: string(rune(b)), call: cc})
-			} else {
-				out = append(out, c37ev{kind: "other", s: desc(args[1]), call: cc})
-			}
-		case "logger.writeLevel":
-			s := ""
-			if b, isC := constBool(args[2]); !isC || b || !isParam(args[1], 2) {
-				s = "bad"
-			}
-			out = append(out, c37ev{kind: "level", s: s, call: cc})
-		case "(*bytes.Buffer).Bytes", "(*bytes.Buffer).String", "(*bytes.Buffer).Len":
-			// reads
-		default:
-			out = append(out, c37ev{kind: "other", s: n, call: cc})
+		if desc(a) == "$0" {
+			dest = true
 		}
 	}
-	return out
+	n := calleeName(&cc.Call)
+	if !touches {
+		if dest {
+			// the destination itself is handed to a function that was not unfolded: it can reach the buffer
+			return c37ev{kind: "other", s: n, call: cc}, true
+		}
+		return c37ev{}, false
+	}
+	args := cc.Call.Args
+	msgEvent := func(kind, s string, m ssa.Value) c37ev {
+		m = c37Res(m)
+		ev := c37ev{kind: kind, s: s, call: cc, msgDesc: desc(m)}
+		if sp, ok := m.(*ssa.Call); ok && isCallTo(sp, "fmt.Sprintf") && len(sp.Call.Args) == 2 {
+			ev.fmtOK = desc(sp.Call.Args[0]) == "$3" && desc(sp.Call.Args[1]) == "$4"
+		}
+		return ev
+	}
+	switch n {
+	case "(*bytes.Buffer).WriteString", "(*bytes.Buffer).Write":
+		x := c37Res(args[1])
+		if s, ok := constString(x); ok {
+			return c37ev{kind: "const", s: s, call: cc}, true
+		}
+		if tc, ok := x.(*ssa.Call); ok {
+			switch calleeName(&tc.Call) {
+			case "(time.Time).Format":
+				lay, _ := constString(c37Res(tc.Call.Args[1]))
+				ev := c37ev{kind: "time", s: lay, call: tc}
+				if desc(tc.Call.Args[0]) != "$1" {
+					ev.s = "!" + lay
+				}
+				return ev, true
+			case "strconv.Quote", "strconv.QuoteToASCII", "strconv.QuoteToGraphic":
+				return msgEvent("msgquote", calleeName(&tc.Call), tc.Call.Args[0]), true
+			}
+		}
+		// json.Marshal(msg)#0, possibly converted to string
+		if ex, ok := x.(*ssa.Extract); ok && ex.Index == 0 {
+			if mc, ok := ex.Tuple.(*ssa.Call); ok && isCallTo(mc, "encoding/json.Marshal") {
+				return msgEvent("msgjson", "", mc.Call.Args[0]), true
+			}
+		}
+		return c37ev{kind: "other", s: desc(x), call: cc}, true
+	case "(*bytes.Buffer).WriteByte", "(*bytes.Buffer).WriteRune":
+		if b, ok := constInt(c37Res(args[1])); ok {
+			return c37ev{kind: "const", s: string(rune(b)), call: cc}, true
+		}
+		return c37ev{kind: "other", s: desc(args[1]), call: cc}, true
+	case "logger.writeLevel":
+		s := ""
+		if b, isC := constBool(c37Res(args[2])); !isC || b || desc(args[1]) != "$2" {
+			s = "bad"
+		}
+		return c37ev{kind: "level", s: s, call: cc}, true
+	case "(*bytes.Buffer).Bytes", "(*bytes.Buffer).String", "(*bytes.Buffer).Len":
+		return c37ev{}, false // reads
+	}
+	return c37ev{kind: "other", s: n, call: cc}, true
 }
 
 func runC37(c *Ctx) {
@@ -237,7 +237,16 @@ func (c *Ctx) c37Dest(p *Prog, fn *ssa.Function, d string) string {
 		if i == ssa.Instruction(sink) {
 			break
 		}
-		if isWrite(i) {
+		appended := isWrite(i)
+		if !appended && newHelperCallee(i) != nil {
+			// a new helper called here is unfolded: it appends iff one of its paths holds a buffer event
+			alts, aok := c.c37EventAlts([]ssa.Instruction{i}, 64, 0)
+			appended = !aok
+			for _, a := range alts {
+				appended = appended || len(a) > 0
+			}
+		}
+		if appended {
 			c.Check("C37.frame", name+": nothing is appended after the structured record", false, p.Pos(i.Pos()), i.String())
 		}
 	}
@@ -249,8 +258,17 @@ func (c *Ctx) c37Dest(p *Prog, fn *ssa.Function, d string) string {
 	}
 	c.Count("structured_paths:"+d, len(paths))
 	skel := ""
+	// a call to a new helper stands for the helper's own paths (prop_gen_c37.go)
+	var alts [][]c37ev
 	for _, path := range paths {
-		evs := c.c37Events(path)
+		a, aok := c.c37EventAlts(path, 64, 0)
+		if !aok {
+			c.Undecided("structured branch of " + name + ": path enumeration through helpers failed (cap 64)")
+			return ""
+		}
+		alts = append(alts, a...)
+	}
+	for _, evs := range alts {
 		var sb strings.Builder
 		var others []string
 		nNL, lastNL := 0, false
@@ -310,9 +328,7 @@ func (c *Ctx) c37Dest(p *Prog, fn *ssa.Function, d string) string {
 		if !c.Check("C37.message.present", name+": the message is written once", msgEv != nil && nMsg == 1, pos, "") {
 			continue
 		}
-		sp := asCall(msgEv.msg)
-		fmtOK := sp != nil && isCallTo(sp, "fmt.Sprintf") && len(sp.Call.Args) == 2 && isParam(sp.Call.Args[0], 3) && isParam(sp.Call.Args[1], 4)
-		c.Check("C37.message.formatted", name+": the message is fmt.Sprintf(format, args...)", fmtOK, p.Pos(msgEv.call.Pos()), desc(msgEv.msg))
+		c.Check("C37.message.formatted", name+": the message is fmt.Sprintf(format, args...)", msgEv.fmtOK, p.Pos(msgEv.call.Pos()), msgEv.msgDesc)
 		c.Check("C37.message.encoded", name+": the message passes through a JSON string encoder", msgEv.kind == "msgjson", p.Pos(msgEv.call.Pos()),
 			msgEv.s+" produces Go string syntax (\\x00, \\a, \\v, \\U0010ffff ...), which is not JSON: control characters and invalid UTF-8 in a message make the line undecodable")
 	}
